@@ -170,12 +170,10 @@ Definition run_extractsp (ex : extractor) (src dst : nat) (r : rec) : outcome re
 Definition run_truncate (loc : nat) (maxlen : Z) (suffix : bytes) (r : rec) : outcome rec :=
   let value := get_field (r_fields r) loc in
   if (Z.of_nat (length value) >? maxlen + Z.of_nat (length suffix))%Z then
-    head <-- go_slice value 0 maxlen ;;
-    trimmed <-- clean_utf8 head ;;
-    (* CleanUTF8 has edited the backing array in place: it now starts with [trimmed] *)
-    let value_b := trimmed ++ skipn (length trimmed) value in
-    res <-- overwrite_n_truncate value_b (length trimmed) suffix ;;
-    Ok (set_field r loc res)
+    (* make([]byte, maxLength, ...) + copy: a fresh buffer holding the first maxLength bytes *)
+    if (maxlen <? 0)%Z then Panic 62 else
+    trimmed <-- clean_utf8 (firstn (Z.to_nat maxlen) value) ;;
+    Ok (set_field r loc (trimmed ++ suffix))
   else Ok r.
 
 Definition run_unescape (loc : nat) (r : rec) : outcome rec :=
@@ -409,10 +407,10 @@ Fixpoint verify (schema : list bytes) (c : cfg) {struct c} : outcome unit :=
     vguard (match m with [] => false | _ => true end)
       (vguard (verify_matcher schema m)
          (vguard ((1 <=? zval pct) && (zval pct <=? 100))%Z (vguard (bytes_nonempty label) (Ok tt))))
-  | CExtractSp _ k pat maxlen dk =>
+  | CExtractSp head k pat maxlen dk =>
     vguard (key_ok schema k)
       (vguard (bytes_nonempty pat)
-         (match split_pattern pat with
+         (match new_string_extractor_simple head pat (zval maxlen) with
           | Ok _ => vguard (0 <? zval maxlen)%Z (vguard (key_ok schema dk) (Ok tt))
           | Err e => Err e
           | Panic s => Panic s
@@ -421,7 +419,9 @@ Fixpoint verify (schema : list bytes) (c : cfg) {struct c} : outcome unit :=
     vguard (key_ok schema k) (vguard (0 <? zval maxlen)%Z (vguard (bytes_nonempty suffix) (Ok tt)))
   | CUnescape k => vguard (key_ok schema k) (Ok tt)
   | CReplace k pat _ => vguard (key_ok schema k) (vguard (bytes_nonempty pat) (vguard (o_re_compiles O pat) (Ok tt)))
-  | CExtractRe k pat => vguard (key_ok schema k) (vguard (bytes_nonempty pat) (vguard (o_re_compiles O pat) (Ok tt)))
+  | CExtractRe k pat =>
+    vguard (key_ok schema k) (vguard (bytes_nonempty pat) (vguard (o_re_compiles O pat)
+      (vguard (forallb (fun n => negb (bytes_nonempty n) || known schema n) (o_re_names O pat)) (Ok tt))))
   end.
 
 Fixpoint verify_all (schema : list bytes) (l : list cfg) : outcome unit :=
